@@ -14,6 +14,7 @@ C05 driver: replays a harness trace.
 import LndModel.Prelude.Lines
 import LndModel.C05.Model
 import LndModel.C05.Persist
+import LndModel.C05.CodecParse
 import LndModel.C04.Parse
 
 open LndModel LndModel.Lines LndModel.C05 LndModel.C04.Script LndModel.C04.Parse
@@ -59,6 +60,20 @@ structure St where
   wtypeCompared : Nat := 0
   courtCases : Nat := 0
   keyPathChecked : Nat := 0
+  -- byte-level codec tie (court stream)
+  rsCur : Codec.ResSet := {}
+  rsWhich : String := ""
+  rsFresh : Option Codec.ResSet := none
+  rsBlobs : Array (Option Codec.Bytes) := #[none, none, none]
+  rsAux : Option Codec.Aux := none
+  rsDamage : Option (Nat × Codec.Bytes) := none
+  blobsCompared : Nat := 0
+  blobBytes : Nat := 0
+  setsDecoded : Nat := 0
+  auxCompared : Nat := 0
+  damagedOk : Nat := 0
+  damagedErr : Nat := 0
+  damagedSkipped : Nat := 0
 
 def mismatch (s : St) (detail : String) : IO St := do
   IO.println s!"MISMATCH case={s.caseId} line={s.lines} {detail}"
@@ -266,6 +281,140 @@ def handleSpend (s : St) (ws : List String) : IO St := do
     s := { s with structChecked := s.structChecked + 1 }
   return s
 
+/-! ### byte-level codec tie -/
+
+def blobIdx (k : String) : Option Nat :=
+  match k with
+  | "resolutions" => some 0 | "signdetails" => some 1 | "anchor" => some 2 | _ => none
+
+/-- `rs`: head of a resolution-set dump -/
+def handleRs (s : St) (ws : List String) : IO St := do
+  let which := kvS ws "which"
+  match Codec.bytesOfHex (kvS ws "hash"), Codec.parseCommit (kvS ws "commit"), Codec.parseAnchor (kvS ws "anchor") with
+  | some h, some c, some a =>
+    let s := { s with rsCur := { commitHash := h, commit := c, anchor := a }, rsWhich := which }
+    if which == "fresh" then
+      return { s with rsFresh := none, rsBlobs := #[none, none, none], rsAux := none, rsDamage := none }
+    else return s
+  | _, _, _ => mismatch s s!"codec: unparsed rs line ctx={kvS ws "ctx"}"
+
+def handleRin (s : St) (ws : List String) : IO St := do
+  match Codec.bytesOfHex (kvS ws "pre"), Codec.parseTx (kvS ws "tx"), Codec.parseOp (kvS ws "claim"),
+        Codec.parseSD (kvS ws "sd"), Codec.parseDetails (kvS ws "det") with
+  | some pre, some tx, some cl, some sd, some det =>
+    let i : Codec.InRes := { preimage := pre, tx := tx, csv := kvN ws "csv", claim := cl, sd := sd, details := det }
+    return { s with rsCur := { s.rsCur with incoming := s.rsCur.incoming ++ [i] } }
+  | _, _, _, _, _ => mismatch s s!"codec: unparsed rin line ctx={kvS ws "ctx"}"
+
+def handleRout (s : St) (ws : List String) : IO St := do
+  match Codec.parseTx (kvS ws "tx"), Codec.parseOp (kvS ws "claim"), Codec.parseSD (kvS ws "sd"),
+        Codec.parseDetails (kvS ws "det") with
+  | some tx, some cl, some sd, some det =>
+    let o : Codec.OutRes := { expiry := kvN ws "expiry", tx := tx, csv := kvN ws "csv", claim := cl, sd := sd,
+                              details := det }
+    return { s with rsCur := { s.rsCur with outgoing := s.rsCur.outgoing ++ [o] } }
+  | _, _, _, _ => mismatch s s!"codec: unparsed rout line ctx={kvS ws "ctx"}"
+
+/-- `blob`: the raw value the real encoder stored vs `logRes` of the dumped fields -/
+def handleBlob (s : St) (ws : List String) : IO St := do
+  let s := if s.rsWhich == "fresh" then { s with rsFresh := some s.rsCur, rsWhich := "" } else s
+  let some fresh := s.rsFresh | mismatch s "codec: blob line without a fresh dump"
+  let some k := blobIdx (kvS ws "key") | mismatch s s!"codec: unknown blob key {kvS ws "key"}"
+  let hx := kvS ws "hex"
+  let st := Codec.logRes fresh
+  let model : Option Codec.Bytes := match k with
+    | 0 => st.resolutions | 1 => st.signDetails | _ => st.anchor
+  let s := { s with evals := s.evals + 1, blobsCompared := s.blobsCompared + 1 }
+  if hx == "absent" then
+    match model with
+    | none => return s
+    | some m => mismatch s s!"codec ctx={kvS ws "ctx"} key={kvS ws "key"}: impl wrote nothing, model {m.length} bytes"
+  else
+    let some real := Codec.bytesOfHex hx | mismatch s s!"codec: bad hex ctx={kvS ws "ctx"}"
+    let s := { s with rsBlobs := s.rsBlobs.set! k (some real), blobBytes := s.blobBytes + real.length }
+    match model with
+    | none => mismatch s s!"codec ctx={kvS ws "ctx"} key={kvS ws "key"}: impl wrote {real.length} bytes, model nothing"
+    | some m =>
+      if m == real then return s
+      else mismatch s s!"codec bytes ctx={kvS ws "ctx"} key={kvS ws "key"}: first difference at offset {Codec.firstDiff real m} (impl {real.length} bytes, model {m.length} bytes)"
+
+/-- `aux`: decoded content of the taproot briefcase vs `auxOf` -/
+def handleAux (s : St) (ws : List String) : IO St := do
+  let some fresh := s.rsFresh | mismatch s "codec: aux line without a fresh dump"
+  let written := kvN ws "written" == 1
+  let s := { s with evals := s.evals + 1, auxCompared := s.auxCompared + 1 }
+  if resOf ws != "ok" then
+    return (← mismatch s s!"codec ctx={kvS ws "ctx"}: taproot briefcase does not decode ({resOf ws})")
+  let mut s := s
+  if written != fresh.auxWritten then
+    s ← mismatch s s!"codec aux ctx={kvS ws "ctx"}: taproot briefcase written impl={written} model={fresh.auxWritten}"
+  if !written then return s
+  match Codec.bytesOfHex (kvS ws "commit"), Codec.bytesOfHex (kvS ws "tweak"), Codec.parseCtrlMap (kvS ws "in"),
+        Codec.parseCtrlMap (kvS ws "out"), Codec.parseCtrlMap (kvS ws "second") with
+  | some c, some t, some i, some o, some sl =>
+    let real : Codec.Aux := { commitCtrl := c, anchorTweak := t, incomingCtrl := i, outgoingCtrl := o, secondCtrl := sl }
+    s := { s with rsAux := some real }
+    let m := Codec.auxOf fresh
+    if m.canon != real.canon then
+      let d := (List.zip real.canon m.canon).find? fun (a, b) => a != b
+      s ← mismatch s s!"codec aux ctx={kvS ws "ctx"}: impl {real.canon.length} entries, model {m.canon.length}; first difference {repr d}"
+    return s
+  | _, _, _, _, _ => mismatch s s!"codec: unparsed aux line ctx={kvS ws "ctx"}"
+
+def storeOf (s : St) : Codec.Store :=
+  { resolutions := s.rsBlobs[0]!, signDetails := s.rsBlobs[1]!, anchor := s.rsBlobs[2]!, taproot := s.rsAux }
+
+/-- `damage`: a damaged value was stored -/
+def handleDamage (s : St) (ws : List String) : IO St := do
+  let some k := blobIdx (kvS ws "key") | mismatch s s!"codec: unknown blob key {kvS ws "key"}"
+  let some b := Codec.bytesOfHex (kvS ws "hex") | mismatch s s!"codec: bad hex ctx={kvS ws "ctx"}"
+  return { s with rsDamage := some (k, b), rsCur := {}, rsWhich := "" }
+
+/-- `rsend`: the model's decoder on the REAL stored bytes vs what the real decoder returned -/
+def handleRsEnd (s : St) (ws : List String) : IO St := do
+  let which := kvS ws "which"
+  let res := resOf ws
+  let ctxS := kvS ws "ctx"
+  let s := { s with evals := s.evals + 1 }
+  if which == "reload" then
+    let s := { s with setsDecoded := s.setsDecoded + 1, rsWhich := "" }
+    let some fresh := s.rsFresh | mismatch s "codec: reload dump without a fresh dump"
+    if res != "ok" then
+      -- the real reader rejected what the real writer stored
+      match Codec.fetchRes (storeOf s) with
+      | some _ => return (← mismatch s s!"codec decode ctx={ctxS}: impl rejects the stored bytes, the model's reader accepts them")
+      | none => return s
+    let mut s := s
+    match Codec.fetchRes (storeOf s) with
+    | none => s ← mismatch s s!"codec decode ctx={ctxS}: the model's reader rejects the stored bytes"
+    | some m =>
+      let d := Codec.diffRes s.rsCur m
+      if !d.isEmpty || s.rsCur != m then
+        s ← mismatch s s!"codec decode ctx={ctxS}: impl/model differ in {d.take 6}"
+    -- the right-hand side of theorem `fetch_log`
+    let d := Codec.diffRes s.rsCur fresh.reloaded
+    if !d.isEmpty || s.rsCur != fresh.reloaded then
+      s ← mismatch s s!"codec reloaded ctx={ctxS}: impl/model differ in {d.take 6}"
+    return s
+  else
+    let some (k, b) := s.rsDamage | mismatch s s!"codec: rsend {which} without damage"
+    let st := storeOf s
+    let st : Codec.Store := match k with
+      | 0 => { st with resolutions := some b }
+      | 1 => { st with signDetails := some b }
+      | _ => { st with anchor := some b }
+    let m := Codec.fetchRes st
+    let s := { s with rsDamage := none, rsWhich := "" }
+    match res, m with
+    | "ok", some x =>
+      if s.rsCur == x then return { s with damagedOk := s.damagedOk + 1 }
+      else mismatch s s!"codec damaged ctx={ctxS} {which}: impl/model differ in {(Codec.diffRes s.rsCur x).take 6}"
+    | "ok", none => mismatch s s!"codec damaged ctx={ctxS} {which}: impl decodes, the model's reader rejects"
+    | "err", none => return { s with damagedErr := s.damagedErr + 1 }
+    | "err", some _ => mismatch s s!"codec damaged ctx={ctxS} {which}: impl rejects, the model's reader accepts"
+    | "err:crypto", _ => return { s with damagedSkipped := s.damagedSkipped + 1 }
+    | r, _ => mismatch s s!"codec damaged ctx={ctxS} {which}: impl answered {r}"
+
 /-- `inc:amt_msat:outidx:claimed` -/
 def parseHtlc (t : String) : Option (Bool × Nat × Int × Int) :=
   match t.splitOn ":" with
@@ -390,6 +539,13 @@ def step (s : St) (line : String) : IO St := do
     if resOf ws == "ok" then return s
     else monitor s "reload-roundtrip" s!"ctx={kvS rest "ctx"} what={kvS rest "what"} idx={kvS rest "idx"} result={resOf ws}"
   | "spend" :: rest => handleSpend s ("spend" :: rest)
+  | "rs" :: rest => handleRs s rest
+  | "rin" :: rest => handleRin s rest
+  | "rout" :: rest => handleRout s rest
+  | "blob" :: rest => handleBlob s ("blob" :: rest)
+  | "aux" :: rest => handleAux s ("aux" :: rest)
+  | "damage" :: rest => handleDamage s ("damage" :: rest)
+  | "rsend" :: rest => handleRsEnd s ("rsend" :: rest)
   | [] => return s
   | _ => mismatch s s!"unparsed line: {line.take 80}"
 
@@ -425,5 +581,12 @@ def main : IO Unit := do
   IO.println s!"STAT model_skipped_taproot_or_unsigned={s.modelSkipped}"
   IO.println s!"STAT key_path_spends_compared={s.keyPathChecked}"
   IO.println s!"STAT templates_compared={s.templates}"
+  IO.println s!"STAT stored_values_compared_bytewise={s.blobsCompared}"
+  IO.println s!"STAT stored_bytes_compared={s.blobBytes}"
+  IO.println s!"STAT resolution_sets_decoded_by_model={s.setsDecoded}"
+  IO.println s!"STAT taproot_aux_compared={s.auxCompared}"
+  IO.println s!"STAT damaged_values_both_accept={s.damagedOk}"
+  IO.println s!"STAT damaged_values_both_reject={s.damagedErr}"
+  IO.println s!"STAT damaged_values_crypto_skipped={s.damagedSkipped}"
   IO.println s!"STAT mismatches={s.mismatches}"
   IO.println s!"STAT monitor_failures={s.monitorFails}"
